@@ -55,6 +55,30 @@ def class_history(ctx, report, status):
     report.count("class_history_orders", n_orders)
 
 
+def shared_objects(ctx, report, status):
+    """results depend on input values and configuration only, not on which dataset objects the process saw before"""
+    n = ctx.n(8, 40)
+    env = dict(os.environ)
+    p = subprocess.Popen([sys.executable, "-m", "harness.impl.c18_worker"], cwd=core.VERIF, env=env,
+                         stdin=subprocess.PIPE, stdout=subprocess.PIPE, stderr=subprocess.PIPE, text=True)
+    p.stdin.write(json.dumps({"mode": "shared_objects", "seed": ctx.seed, "n_cases": n}) + "\n")
+    p.stdin.close()
+    recs, code, err = collect(p)
+    if code != 0 or len(recs) != n:
+        status.problem("worker", f"shared-objects worker exited {code} with {len(recs)}/{n} records", err)
+    for r in recs:
+        if "skipped" in r:
+            report.count("skipped_zero_division")
+            continue
+        report.case(key=("shared", r["case"]), nontrivial=True, sample=r)
+        for clause in ("band_switch_same_objects", "inplace_update_seen"):
+            report.hit("other_machines_no_effect")
+            if not r[clause]:
+                report.fail("other_machines_no_effect", clause, {"seed": ctx.seed, "case": r["case"], "mode": "shared_objects",
+                                                               "matching_cost": r["matching_cost"], "tail": r["tail"]}, r)
+    report.count("shared_object_histories", len(recs))
+
+
 def launch(seed, n_cases, threads, parallel):
     env = dict(os.environ)
     env["NUMBA_NUM_THREADS"] = str(threads)
@@ -114,10 +138,12 @@ def run(ctx, report, status):
         "runtime sampling: the same deterministic cases (pair, pipeline exercising refinement and the confidence kernels) run in "
         "separate processes under NUMBA_NUM_THREADS in {1,2,4,16} x PANDORA_NUMBA_PARALLEL in {True, False}; per case: hash of all "
         "products, rerun on the same machine, rerun after other machines ran other pipelines, fresh machine, deep fingerprint of "
-        "the input datasets; non-trivial = case completed under every setting; distinct by case index"
+        "the input datasets; plus histories on shared dataset objects (two pipelines matching on different bands of one multiband pair, "
+        "alternately; image samples overwritten in place between two runs), each result compared with the same pipeline on deep copies; non-trivial = case completed under every setting; distinct by case index"
     )
     translator_cross_check(report, status)
     class_history(ctx, report, status)
+    shared_objects(ctx, report, status)
     n_cases = ctx.n(6, 30)
     settings = [(1, True), (2, True), (4, True), (4, False)] if not ctx.thorough else \
         [(1, True), (2, True), (4, True), (16, True), (1, False), (4, False), (16, False), (3, True)]
